@@ -3,6 +3,7 @@ package props
 import (
 	stdjson "encoding/json"
 	"fmt"
+	"math/rand"
 	"strings"
 	"sync"
 
@@ -71,7 +72,52 @@ func c14Inputs(c *fw.Ctx, seeds [][]byte, ops []extOp) [][]byte {
 	return ins
 }
 
+// c14Family turns 2-3 operations of a history into a family registered from a table: every
+// member is given the SAME slice, which lists the names of all members and one more name.
+func c14Family(r *rand.Rand, ops []extOp) {
+	var own []int
+	for i, op := range ops {
+		if strings.Contains(op.MIME, "x-verif") {
+			own = append(own, i)
+		}
+	}
+	if len(own) < 2 || r.Intn(5) != 0 {
+		return
+	}
+	r.Shuffle(len(own), func(i, j int) { own[i], own[j] = own[j], own[i] })
+	own = own[:2+r.Intn(minInt(2, len(own)-1))]
+	var fam []string
+	for _, i := range own {
+		fam = append(fam, ops[i].MIME)
+	}
+	for _, i := range own {
+		fam = append(fam, ops[i].Aliases...) // names later operations may already refer to stay registered
+	}
+	fam = append(fam, ops[own[0]].MIME+"-family")
+	for _, i := range own {
+		ops[i].Aliases = fam
+	}
+}
+
 func c14CheckHistory(c *fw.Ctx, ops []extOp, fresh bool, useReset bool) {
+	// alias lists with the same content are ONE slice, the way a caller that registers a family
+	// of formats from a table passes it (this also restores the sharing when a history is replayed)
+	// The library is handed libLists[i]; ops[i].Aliases (what the caller asked for) never reaches it
+	// and is what the model and the Lookup checks go by.
+	sharedLists := map[string][]string{}
+	libLists := make([][]string, len(ops))
+	for i := range ops {
+		libLists[i] = append([]string(nil), ops[i].Aliases...)
+		if len(ops[i].Aliases) >= 2 {
+			k := strings.Join(ops[i].Aliases, "\x00")
+			if sl, ok := sharedLists[k]; ok {
+				libLists[i] = sl
+				c.Count("extend_calls_given_a_shared_alias_list", 1)
+			} else {
+				sharedLists[k] = libLists[i]
+			}
+		}
+	}
 	base := baseTree()
 	seeds := lib.Seeds()
 	if useReset {
@@ -108,11 +154,18 @@ func c14CheckHistory(c *fw.Ctx, ops []extOp, fresh bool, useReset bool) {
 					panic(e)
 				}
 			}()
-			id = applyOp(op, model, base)
+			id = applyOpList(op, libLists[oi], model, base)
 		}()
 		if lost != "" {
 			c.Violate("lookup", "lookup-of-registered-parent", fmt.Sprintf("Lookup(%q) returned nil although a format of that name is registered (it was about to be extended)", lost), mk([]byte(lost), 0, "lookup-parent"))
 			return
+		}
+		for i := range op.Aliases {
+			if libLists[oi][i] != op.Aliases[i] {
+				// evidence only: what the property promises is decided by the Lookup and detection checks below
+				c.Count("extend_rewrote_the_callers_alias_list_seen_not_judged", 1)
+				break
+			}
 		}
 		extIDs = append(extIDs, id)
 		// keep a value returned now; it must not change when the history goes on
@@ -258,12 +311,14 @@ func c14Run(c *fw.Ctx, b fw.Batch) {
 	case "histories":
 		for h := 0; h < b.N; h++ {
 			ops := genHistory(r, base, 1+r.Intn(12), seeds, true)
+			c14Family(r, ops)
 			c14CheckHistory(c, ops, false, true)
 		}
 		mimetype.VerifResetTree()
 	case "fresh":
 		// exactly one history in a fresh process, the reset hook is never used
 		ops := genHistory(r, base, 1+r.Intn(12), seeds, true)
+		c14Family(r, ops)
 		c14CheckHistory(c, ops, true, false)
 	case "concurrent-registration":
 		// several goroutines register extensions on the same parents; afterwards
